@@ -46,6 +46,7 @@ type hw struct {
 	nWrite    int
 	nFlush    int
 	hdrFlush  bool // the next flush is /io's header flush
+	failHdr   bool // that header flush fails
 	evs       []hwEv
 	hdr       http.Header
 }
@@ -78,6 +79,9 @@ func (h *hw) flush() error {
 	defer h.cond.Broadcast()
 	if h.hdrFlush {
 		h.hdrFlush = false
+		if h.failHdr {
+			return errInjected
+		}
 		return nil
 	}
 	h.nFlush++
@@ -158,6 +162,7 @@ type HCase struct {
 	FailFlush int      `json:"fail_flush"`
 	Lines     []string `json:"lines"`
 	Chunks    []string `json:"chunks"` // output of the first shell, sent before the lines
+	FailHdr   bool     `json:"fail_hdr,omitempty"` // /io only: the initial header flush fails
 }
 
 type hShell struct {
@@ -223,11 +228,24 @@ func runH1(c HCase, viols *[]hViol) (key, what string, classes []string) {
 	h := s.S.VerifHandler()
 	classes = append(classes, "L2h-mode-"+c.Mode, "L2h-writer-"+c.Kind)
 	in1 := newHW(c.Kind, c.FailWrite, c.FailAfter, c.FailFlush, c.Mode == "io")
+	in1.failHdr = c.FailHdr && c.Mode == "io" && c.Kind == "flusherr"
+	if in1.failHdr {
+		classes = append(classes, "L2h-io-header-flush-fails")
+	}
 	from := s.Seq()
 	sh1 := startHShell(s, h, c.Mode, "one", "10.0.0.1:1111", in1)
 	defer sh1.end()
 	if _, ok := s.WaitLine(Wait, from, "Shell is ready"); !ok {
-		return "HARNESS", "first shell did not attach through the handler", classes
+		// a stream the server turns away must leave an error record naming the
+		// reason; one that leaves no record at all is a hole in the transcript
+		s.Barrier()
+		for _, r := range s.Recs() {
+			if ra := r.Attrs["http_request.remote_addr"]; ra == "10.0.0.1:1111" || ra == "11.0.0.1:1111" {
+				return "HARNESS", "first shell did not attach through the handler", classes
+			}
+		}
+		*viols = append(*viols, hViol{"log-refused-stream-not-logged", fmt.Sprintf("a %s request with a %s writer (header flush failing: %v) was not attached, and the log has no record about it at all", c.Mode, c.Kind, c.FailHdr || c.Kind == "plain")})
+		return "", "", classes
 	}
 	// output first (so that the fault cannot cut it short)
 	var sentOut strings.Builder
@@ -411,6 +429,7 @@ func genH() *rapid.Generator[HCase] {
 		case 2, 3:
 			c.FailFlush = rapid.IntRange(1, n).Draw(t, "failflush")
 		}
+		c.FailHdr = c.Mode == "io" && c.Kind == "flusherr" && rapid.IntRange(0, 3).Draw(t, "failhdr") == 0
 		for i := rapid.IntRange(0, 3).Draw(t, "nchunks"); i > 0; i-- {
 			c.Chunks = append(c.Chunks, rapid.SampledFrom([]string{"out\n", "quo\"te", "nul\x00", "\xff\xfe", "{\"a\":1}\n", "100% %d"}).Draw(t, "chunk"))
 		}
